@@ -44,6 +44,11 @@ CLAIMED = {
    note="Trusted: TLC, Conversion.tla, the driver (fresh backend/pipeline/rule objects for the 'alone' reference; error records read from backend.errors). Non-Sigma exceptions such as NotImplementedError for features a backend lacks are outside this property's failure stages.",
    technique="TLA+ conversion state machine with failure transitions model-checked with TLC; TLC-generated collections replayed into the code; TLC judges the recorded accounting",
    ref="6/C08"),
+ "C15": dict(level=MC,
+   text="TLC model-checks the Mechanism model spec/PipelineObjects.tla (pipeline objects, item->owner back pointers re-assigned by '+', class-level backend pipeline shared by instances, per-rule state reset in apply, re-owning at apply): every history <=5/7 of {init backend A/B, convert windows/linux rule with A/B}, with shared or separate user pipeline objects, satisfies HistoryFree (each conversion yields what fresh objects yield). Negative control: the pre-repair mechanism (no re-owning) must be refuted - TLC finds 'init A; init B; convert A'. Conformance: TLC-enumerated histories over {create backend sharing the pipeline object or not, init, convert rule/collection of 7 kinds incl. failures at every stage and inside negated not-equals rendering} + 4 probes are replayed on real objects; TLC compares each probe with its conversion in a newly started interpreter and with the abstract result the model predicts (state seen, gated item applied).",
+   note="Trusted: TLC, PipelineObjects.tla, the driver, process start as 'fresh' reference. Probes share condition strings, detection names and field names with earlier rules (parse cache, tracking sets).",
+   technique="TLA+ mechanism model of pipeline ownership/state model-checked with TLC (with negative control); TLC-generated operation histories replayed into real objects; TLC judges probe results against a fresh-interpreter oracle and the model's abstract result",
+   ref="6/C15"),
 }
 REASON_NOT_BUILT = "check not built yet in this round (see DESIGN.md section 6 for the planned TLA+ model); not claimed until its judge is sound"
 ALL = [f"C{i:02d}" for i in range(1, 21)]
